@@ -54,6 +54,19 @@ def judge : List String → String
     | _, _ => "bad-op"
   -- same, plus the description of the key the returned certificate actually carries
   | ["jkey", p, d, st, same, certd] =>
+    if d == "absent" then
+      -- the request carried no key: if a certificate comes back anyway, the key it carries must be an allowed one
+      match pPath p with
+      | some _ =>
+        if st == "PANIC" then "viol panic"
+        else if st == "200" then
+          match pDesc certd with
+          | some (.key ck) => if spec ck then "ok" else "viol weak-key-certified"
+          | _ => "viol certificate-key-unreadable"
+        else if st.length == 3 && st.startsWith "4" then "ok"
+        else s!"viol refusal-status-{st}"
+      | none => "bad-op"
+    else
     match pPath p, pDesc d with
     | some _, some d =>
       if st == "PANIC" then "viol panic"
